@@ -83,7 +83,13 @@ FLOORS = {
                            "expected_error": 130, "divisions_monitor_runs": 800, "compute_views": 330,
                            "source_unknown_divisions": 750, "source_with_empty_partitions": 170},
               "sets": {"target_feature": 12}, "max_skipped_fraction": 0.15},
-    "thorough": {"evaluations": 1, "distinct_nontrivial": 1},
+    "thorough": {"evaluations": 22000, "distinct_nontrivial": 17500,
+                 "counters": {"results_checked": 19000, "partitions_observed": 110000, "npartitions_checked": 7500,
+                              "npartitions_more": 3600, "npartitions_fewer": 3200, "npartitions_above_row_count": 1600,
+                              "divisions_checked": 7200, "divisions_force": 3000, "divisions_outer_changed": 2800,
+                              "expected_error": 1500, "divisions_monitor_runs": 7200, "compute_views": 3800,
+                              "source_unknown_divisions": 5000, "source_with_empty_partitions": 2000},
+                 "sets": {"target_feature": 13}, "max_skipped_fraction": 0.15},
 }
 EXHAUSTIVE_SPACE = {
     "quick": "6-row frames with index (10..60 step 10) and (0..5): all 32 compositions into non-empty source partitions x "
@@ -240,9 +246,8 @@ def known_source(pdf, divs):
 
     dd = F.setup()
     idx = pdf.index
+    # (a repeated last division means: the last partition holds exactly the label divs[-1])
     pos = [int(idx.searchsorted(v, side="left")) for v in divs[:-1]]
-    if len(divs) >= 2 and divs[-1] == divs[-2] and len(divs) > 2:
-        pass  # repeated last division: the last partition holds exactly the label divs[-1]
     pos.append(len(pdf))
     pos[0] = 0
     pos = list(np.maximum.accumulate(pos))
